@@ -88,7 +88,8 @@ fn check(t: &mut Tape, ctx: &mut Ctx) -> CheckResult {
         require_iso(ctx, "compose-commutes-model", &got, &want, "strict(f;g) vs the model gluing")?;
         let got2 = strictify(ctx, lc.as_ref().unwrap(), "strict(lax_compose)")?;
         require_iso(ctx, "compose-commutes", &got2, &want, "strict(lax_compose(f,g)) vs the model gluing")?;
-        ensure!(ctx, c2.as_ref() == Some(&c) && lc.as_ref() == Some(&c), "compose-commutes", "compose, >> and lax_compose return different data on matching types");
+        let got3 = strictify(ctx, c2.as_ref().unwrap(), "strict(f >> g)")?;
+        require_iso(ctx, "compose-commutes", &got3, &want, "strict(f >> g) vs the model gluing")?;
     }
 
     // ---- tensor
@@ -117,18 +118,18 @@ fn check(t: &mut Tape, ctx: &mut Ctx) -> CheckResult {
     let a = f.d.source_type();
     let b = g.d.target_type();
     let li = LOH::identity(obs(&a));
-    let lid = wf(ctx, "lax-wf", from_lax(&li), "lax identity")?;
-    ensure!(ctx, lid == Lax { d: Diagram::identity(&a), q: vec![] }, "constructors-agree", "lax identity = {}", lid.pretty());
-    ensure!(ctx, strictify(ctx, &li, "strict(id)")? == wf(ctx, "strictify-wf", sv::from_strict(&sv::SOH::identity(sv::ty(&a))), "id")?, "constructors-agree", "strict(lax id) != strict id");
+    wf(ctx, "lax-wf", from_lax(&li), "lax identity")?;
+    require_iso(ctx, "constructors-agree", &strictify(ctx, &li, "strict(id)")?, &wf(ctx, "strictify-wf", sv::from_strict(&sv::SOH::identity(sv::ty(&a))), "id")?, "strict(lax id) vs strict id")?;
+    require_iso(ctx, "constructors-agree", &strictify(ctx, &li, "strict(id)")?, &Diagram::identity(&a), "strict(lax id) vs the model identity")?;
     let ltw = <LOH as SymmetricMonoidal>::twist(obs(&a), obs(&b));
     let stw = wf(ctx, "strictify-wf", sv::from_strict(&sv::SOH::twist(sv::ty(&a), sv::ty(&b))), "twist")?;
-    ensure!(ctx, strictify(ctx, &ltw, "strict(lax twist)")? == stw, "constructors-agree", "strict(lax twist) != strict twist");
+    require_iso(ctx, "constructors-agree", &strictify(ctx, &ltw, "strict(lax twist)")?, &stw, "strict(lax twist) vs strict twist")?;
     require_iso(ctx, "constructors-agree", &stw, &Diagram::twist(&a, &b), "twist vs block transposition")?;
     let lsing = LOH::singleton(Op(7), obs(&a), obs(&b));
     let ssing = sv::SOH::singleton(Op(7), sv::ty(&a), sv::ty(&b));
     let want = Diagram::singleton(7, &a, &b);
-    ensure!(ctx, strictify(ctx, &lsing, "strict(lax singleton)")? == want, "constructors-agree", "lax singleton differs from the model singleton");
-    ensure!(ctx, wf(ctx, "strictify-wf", sv::from_strict(&ssing), "strict singleton")? == want, "constructors-agree", "strict singleton differs from the model singleton");
+    require_iso(ctx, "constructors-agree", &strictify(ctx, &lsing, "strict(lax singleton)")?, &want, "lax singleton vs the model singleton")?;
+    require_iso(ctx, "constructors-agree", &wf(ctx, "strictify-wf", sv::from_strict(&ssing), "strict singleton")?, &want, "strict singleton vs the model singleton")?;
     // dagger commutes with strictification
     let got = strictify(ctx, &lf.dagger(), "strict(f†)")?;
     require_iso(ctx, "constructors-agree", &got, &sfm.dagger(), "strict(f†) vs strict(f)†")?;
@@ -137,7 +138,7 @@ fn check(t: &mut Tape, ctx: &mut Ctx) -> CheckResult {
     let nn = w.len();
     let lsp = LOH::spider(sv::ff(f.d.s.clone(), nn), sv::ff(f.d.t.clone(), nn), obs(&w)).ok_or_else(|| ctx.fail("constructors-agree", "lax spider rejected in-range legs"))?;
     let ssp = sv::SOH::spider(sv::ff(f.d.s.clone(), nn), sv::ff(f.d.t.clone(), nn), sv::ty(&w)).ok_or_else(|| ctx.fail("constructors-agree", "strict spider rejected in-range legs"))?;
-    ensure!(ctx, strictify(ctx, &lsp, "strict(lax spider)")? == wf(ctx, "strictify-wf", sv::from_strict(&ssp), "spider")?, "constructors-agree", "strict(lax spider) != strict spider");
+    require_iso(ctx, "constructors-agree", &strictify(ctx, &lsp, "strict(lax spider)")?, &wf(ctx, "strictify-wf", sv::from_strict(&ssp), "spider")?, "strict(lax spider) vs strict spider")?;
 
     let has_edge = !f.d.edges.is_empty() || !g.d.edges.is_empty();
     if has_edge && ((types_match && !f.d.t.is_empty()) || !f.q.is_empty() || !g.q.is_empty()) {
